@@ -20,40 +20,58 @@ RA = MOD + "Mapper::release_all"
 NP = MOD + "newly_press"
 
 
-def run(ctx):
-    ck = ctx.check
-    K = kt.KT(ctx)
-    ck.rule_text = "one obligation per structural fact about release_all, State::init, reads of repeating_trigger, and the forget-on-press ordering"
-    ck.trusted_base = ["rustc front end + MIR builder", "tmfacts exporter", "tmv path walker", "C01 rules (re-run)"]
-    # ---------------- R1 release_all
+def release_all_rules(ctx, ck, K, rid):
+    """Mapper::release_all steps Released(k) for EVERY key of a snapshot of input_pressed_keys on EVERY return path
+    (shared by C06 and C12: the tablet-mode reset is this function)"""
     ra = ctx.body(RA)
     me = T("param", 1, ra.dbg.get(1, ""))
     loops = sorted(ra.loops())
-    ck.ob("C06-R1", RA, "single-loop", len(loops) == 1)
+    ck.ob(rid, RA, "single-loop", len(loops) == 1)
     if len(loops) == 1:
         il = ktloops.index_loop(ra, loops[0], full=True)
         snap = il.list_term
         ok_snap = il.kind == "for-elements" and list_of(snap) == "IP" and il.complete and not [p for p in il.break_paths]
-        ck.ob("C06-R1", RA, "iterates-every-key-of-input_pressed_keys(exit-only-by-exhaustion)", ok_snap, detail=show(snap)[:80] if snap else None)
+        ck.ob(rid, RA, "iterates-every-key-of-input_pressed_keys(exit-only-by-exhaustion)", ok_snap, detail=show(snap)[:80] if snap else None)
         # a snapshot: the iterated vector is a clone taken before the loop
         it = il.elem[1] if il.elem else None
         cl = isinstance(it, tuple) and isinstance(it[1], tuple) and it[1][0] == "clone"
-        ck.ob("C06-R1", RA, "iterates-a-snapshot(clone)-not-the-list-being-modified", cl)
+        ck.ob(rid, RA, "iterates-a-snapshot(clone)-not-the-list-being-modified", cl)
         for p in il.cont_paths:
             fx = K._one(ra, p, "x", None)
             calls = [e for e in fx.effects if e.kind == "CALL" and e.key == MOD + "Mapper::step"]
             apps = [e for e in fx.effects if e.kind == "APPEND"]
             ok = len(calls) == 1 and kt.is_event_agg(calls[0].aux[1]) and calls[0].aux[1][2] == "Released" and calls[0].aux[1][3][0] == il.elem \
                 and mir.strip(calls[0].aux[0]) == me
-            ck.ob("C06-R1", RA, "steps-Released(k)-for-the-visited-key", ok)
+            ck.ob(rid, RA, "steps-Released(k)-for-the-visited-key", ok)
             ok2 = len(apps) == 1 and mir.strip(apps[0].key) == T("field", calls[0].ev.c, "events") if calls else False
-            ck.ob("C06-R1", RA, "appends-that-step's-events", ok2)
+            ck.ob(rid, RA, "appends-that-step's-events", ok2)
             unc = not [g for g in fx.all_guards() if not (isinstance(g[0], tuple) and g[0][0] == "variantof")]
-            ck.ob("C06-R1", RA, "unconditionally", unc)
+            ck.ob(rid, RA, "unconditionally", unc)
             if apps:
                 acc = mir.strip(apps[0].aux)
                 for q in il.exh_paths:
-                    ck.ob("C06-R1", RA, "returns-the-accumulated-events", q.outcome[0] == "return" and mir.strip(q.outcome[1]) == acc)
+                    ck.ob(rid, RA, "returns-the-accumulated-events", q.outcome[0] == "return" and mir.strip(q.outcome[1]) == acc)
+    # no return path gets round the loop (an early return leaves input_pressed_keys / active_mappings as they were)
+    rets = [p for p in mir.walk_function(ra) if p.outcome[0] == "return"]
+    okr = bool(rets) and len(loops) == 1
+    for p in rets:
+        ls = [e for e in p.events if e.kind == "loop"]
+        ex = [e for e in p.events if e.kind == "loopexit"]
+        exh = ra.exhaustion_exit(loops[0]) if len(loops) == 1 else None
+        if len(ls) != 1 or len(ex) != 1 or exh is None or ex[0].b != exh[1]:
+            okr = False
+    ck.ob(rid, RA, "every-return-path-runs-the-complete-loop(no-early-return,no-fast-path)", okr,
+          detail=None if okr else "a return path of release_all does not run the loop over input_pressed_keys to exhaustion: the mapper keeps its input set and active mappings")
+    ck.floor(rid, "release_all-return-paths", len(rets), 1)
+
+
+def run(ctx):
+    ck = ctx.check
+    K = kt.KT(ctx)
+    ck.rule_text = "one obligation per structural fact about release_all, State::init, reads of repeating_trigger, and the forget-on-press ordering"
+    ck.trusted_base = ["rustc front end + MIR builder", "tmfacts exporter", "tmv path walker", "C01 rules (re-run)"]
+    # ---------------- R1 release_all
+    release_all_rules(ctx, ck, K, "C06-R1")
     # ---------------- R2 rest == init for the four lists
     init = ctx.body(MOD + "State::init")
     ps = [p for p in mir.walk_function(init) if p.outcome[0] == "return"]
